@@ -296,7 +296,7 @@ func (e *Exec) checkFrameRange(st *State, key string, ref, lo, hi Term, p token.
 		if m.any {
 			allowed = append(allowed, True)
 		} else if m.isElem {
-			allowed = append(allowed, And(Eq(ref, m.ref), Le(m.lo, lo), Le(hi, m.hi)))
+			allowed = append(allowed, And(m.when(), Eq(ref, m.ref), Le(m.lo, lo), Le(hi, m.hi)))
 		}
 	}
 	e.oblige(st, "frame", "", Or(allowed...), "range store allowed by modifies: "+key, p)
@@ -474,8 +474,17 @@ func (e *Exec) callStatic(st *State, call *ast.CallExpr, fn *types.Func, recv *T
 		return out
 	}
 	fi := e.prog.FuncByObj[fn.Origin()]
-	ct := e.prog.Contracts[key]
+	var ct *Contract
+	if fi != nil {
+		ct = contractFor(e.prog, fi)
+	}
 	if ct != nil && fi != nil {
+		e.calledContracts[key] = true
+		if ct.Iface && recv != nil {
+			// static call of a method whose contract is the interface contract
+			r := TV{st.contOf(e.kindCode(recv.Ty), recv.T), recv.Ty}
+			return e.applyIfaceContract(st, call, fn, ct, r, args)
+		}
 		return e.applyContract(st, call, fi, ct, recv, args)
 	}
 	if fi != nil && fi.Decl.Body != nil && e.depth < 3 && !e.opts.NoInline && !e.inStack(key) {
@@ -585,6 +594,30 @@ func (e *Exec) modLocs(clauses []Clause, env *SpecEnv) []modLoc {
 				})
 				continue
 			}
+			if x.Fun == "repr" && len(x.Args) == 1 {
+				// the representation of a container value: per kind, its fields and backing array
+				v := e.tr(x.Args[0], env)
+				if v.T.Sort != SCont {
+					e.specFail("repr() of a non-interface value")
+				}
+				for _, it := range e.implementations(v.Ty) {
+					kc := Eq(CKind(v.T), IntLit(int64(e.kindCode(it))))
+					ref := CRef(v.T)
+					pt := it.(*types.Pointer).Elem()
+					e.allFields(pt, func(owner types.Type, f *types.Var) {
+						key := fieldKey(owner, f.Name())
+						e.heapInit(key, f.Type())
+						out = append(out, modLoc{key: key, ref: ref, cond: kc})
+						if sl, ok := types.Unalias(f.Type()).Underlying().(*types.Slice); ok {
+							ek := elemKey(sl.Elem())
+							e.heapInit(ek, sl.Elem())
+							sv := e.loadField(env.cur, owner, f, ref)
+							out = append(out, modLoc{key: ek, ref: SRef(sv), lo: SOff(sv), hi: Add(SOff(sv), SCap(sv)), isElem: true, cond: kc})
+						}
+					})
+				}
+				continue
+			}
 			if x.Fun == "anyelems" && len(x.Args) == 1 {
 				id, _ := x.Args[0].(*SIdent)
 				if id == nil {
@@ -647,6 +680,39 @@ func (e *Exec) havocLocs(st *State, locs []modLoc, p token.Pos) {
 			e.heapHavoc(st, l.key)
 			if e.dry > 0 {
 				e.dryStores = append(e.dryStores, dryStore{l.key, e.fresh("anyref", SInt)})
+			}
+			continue
+		}
+		if l.cond.S != "" && l.cond.S != "true" {
+			// conditional location: havoc under the condition only
+			saved := st.pc
+			e.syncCtx(saved.S)
+			n0 := len(e.assumps)
+			e.addPC(st, l.cond)
+			if l.isElem {
+				e.checkFrameRange(st, l.key, l.ref, l.lo, l.hi, p)
+			} else {
+				e.checkFrame(st, l.key, l.ref, Term{}, false, p)
+			}
+			st.pc = saved
+			e.reparentSince(n0, saved.S)
+			if l.isElem {
+				inner := ArraySort(SInt, m.vsort)
+				na := e.fresh("arr", inner)
+				i := Term{"i!w", SInt}
+				oldA := Select(h, l.ref, inner)
+				keep := Implies(Or(Not(l.cond), Lt(i, l.lo), Ge(i, l.hi)), Eq(Select(na, i, m.vsort), Select(oldA, i, m.vsort)))
+				e.assumps = append(e.assumps, fmt.Sprintf("(assert (forall ((i!w Int)) (! %s :pattern (%s))))", keep.S, Select(na, i, m.vsort).S))
+				rf := e.rangeFact(Select(na, i, m.vsort), m.vtype)
+				if rf.S != "true" {
+					e.assumps = append(e.assumps, fmt.Sprintf("(assert (forall ((i!w Int)) (! %s :pattern (%s))))", rf.S, Select(na, i, m.vsort).S))
+				}
+				st.heap[l.key] = e.bindHeap(l.key, Ite(l.cond, Store(h, l.ref, na), h))
+			} else {
+				nv := e.fresh("fld", m.vsort)
+				e.assumeGlobal(e.rangeFact(nv, m.vtype))
+				e.assume(st, e.allocFact(nv, m.vtype, e.allocGet(st)))
+				st.heap[l.key] = e.bindHeap(l.key, Ite(l.cond, Store(h, l.ref, nv), h))
 			}
 			continue
 		}
@@ -950,6 +1016,9 @@ func (e *Exec) applyIfaceContract(st *State, call *ast.CallExpr, fn *types.Func,
 	e.counters["call"] = site + 1
 	pre := st.clone()
 	sig := fn.Type().(*types.Signature)
+	if isig := e.ifaceMethodSig(ct); isig != nil {
+		sig = isig
+	}
 	mkEnv := func(cur, old *State) *SpecEnv {
 		env := &SpecEnv{vars: map[string]TV{"this": recv}, oldVars: map[string]TV{}, cur: cur, old: old}
 		if fn.Pkg() != nil {
@@ -1078,4 +1147,31 @@ func (e *Exec) stdlibIface(st *State, call *ast.CallExpr, fn *types.Func, iname 
 		return []Term{e.fresh("str", SInt)}, true
 	}
 	return nil, false
+}
+
+
+// ifaceMethodSig returns the signature of the interface method an interface contract is about.
+func (e *Exec) ifaceMethodSig(ct *Contract) *types.Signature {
+	parts := strings.Split(ct.Key, ".")
+	if len(parts) != 3 {
+		return nil
+	}
+	pkg := e.prog.Pkgs[parts[0]]
+	if pkg == nil {
+		return nil
+	}
+	tn, _ := pkg.Types.Scope().Lookup(parts[1]).(*types.TypeName)
+	if tn == nil {
+		return nil
+	}
+	it, ok := tn.Type().Underlying().(*types.Interface)
+	if !ok {
+		return nil
+	}
+	for i := 0; i < it.NumMethods(); i++ {
+		if it.Method(i).Name() == parts[2] {
+			return it.Method(i).Type().(*types.Signature)
+		}
+	}
+	return nil
 }
